@@ -870,7 +870,11 @@ class BlockwiseRequest(BaseUnicastRequest, interfaces.Request):
                 logged = True
                 response.set_exception(e)
             obs = weak_observation()
-            if app_request.opt.observe is not None and obs is not None:
+            if (
+                app_request.opt.observe is not None
+                and obs is not None
+                and not obs.cancelled
+            ):
                 logged = True
                 obs.error(e)
             if not logged:
@@ -1018,7 +1022,7 @@ class BlockwiseRequest(BaseUnicastRequest, interfaces.Request):
                 lower_observation = blockrequest.observation
             else:
                 obs = weak_observation()
-                if obs:
+                if obs and not obs.cancelled:
                     obs.error(error.NotObservable())
                 del obs
 
